@@ -89,14 +89,14 @@ def run(ctx):
         ctx.mismatch('registry-selfcheck', {'why': why}, sorted(run_map.items()), sorted(src_map.items()))
 
     comps = components(registry)
-    reduced = [c for c in comps if c not in ('018-Proxford', 'runtime_error', '')]
+    reduced = [c for c in comps if c not in ('018-Proxford', 'runtime_error', '', 'contract', 'bad_contract_parameter')]
     ctx.extra['components'] = comps
     ctx.extra['rule'] = (
         f'ids = all sequences of 1..{4 if quick else 5} components over {len(comps)} components (proto, two protocol names, every '
         'component of a registered key, unregistered names, the empty component)'
         + (f', length 5 over the {len(reduced)} most relevant components' if quick else '')
-        + '; each id alone, ids of <= 3 components also behind every prefix of 0..2 distractor errors mapping to other classes, '
-        'the rest behind random prefixes; the empty list. non-trivial = some variant key of the last id is registered')
+        + f'; each id alone, ids of <= {2 if quick else 3} components also behind every prefix of 0..2 distractor errors mapping to other '
+        'classes, 3-component ids behind each single distractor, the rest behind random prefixes; the empty list. non-trivial = some variant key of the last id is registered')
     ids = []
     for ln in range(1, (4 if quick else 5) + 1):
         ids.extend('.'.join(c) for c in itertools.product(comps, repeat=ln))
@@ -107,8 +107,10 @@ def run(ctx):
     cases = [[]]
     for i in ids:
         cases.append([i])
-        if i.count('.') <= 2:
+        if i.count('.') <= (1 if quick else 2):
             cases.extend(p + [i] for p in prefixes[1:])
+        elif i.count('.') == 2:
+            cases.extend(p + [i] for p in prefixes[1:5])
         elif ctx.rng.random() < (0.3 if quick else 0.15):
             cases.append(ctx.rng.choice(prefixes[1:]) + [i])
     ctx.extra['ids'] = len(ids)
